@@ -764,7 +764,7 @@ def run_foreign(env, case):
     return v
 
 
-CWD_NAMES = ["reports [old-2019]", "a(b", "x*y?", "c++", "back\\slash", "dots.and$"]
+CWD_NAMES = ["reports [old-2019]", "a(b", "x*y?", "c++", "back\\slash", "dots.and$", "(removed)"]
 
 
 def run_cwd(env, case):
@@ -779,6 +779,8 @@ def run_cwd(env, case):
         os.chdir(d)
         if as_home:
             os.environ["HOME"] = d
+        if name == "(removed)":
+            os.rmdir(d)  # the process's working directory no longer exists (a command that cleaned up after itself)
         v = check_render(env, case, exc, verb, True, "none", ansi, False)
     finally:
         os.chdir(old)
